@@ -52,7 +52,15 @@ static lltd_iface_state *g_iface_states = NULL;
 #define log_crit(...) lltd_port_log_warning(__VA_ARGS__)
 #define log_alert(...) lltd_port_log_warning(__VA_ARGS__)
 
+#ifdef D3VI1_LLTDRESPONDER_VERIF
+/* Verification hook: schedule points of the per-interface state insertion. */
+void lltd_verif_yield(int point);
+#endif
+
 static lltd_iface_state *lltd_state_for_iface(void *iface_ctx) {
+#ifdef D3VI1_LLTDRESPONDER_VERIF
+    lltd_verif_yield(0);
+#endif
     for (lltd_iface_state *cur = g_iface_states; cur != NULL; cur = cur->next) {
         if (cur->iface_ctx == iface_ctx) {
             return cur;
@@ -66,6 +74,9 @@ static lltd_iface_state *lltd_state_for_iface(void *iface_ctx) {
     lltd_port_memset(st, 0, sizeof(*st));
     st->iface_ctx = iface_ctx;
     st->next = g_iface_states;
+#ifdef D3VI1_LLTDRESPONDER_VERIF
+    lltd_verif_yield(1);
+#endif
     g_iface_states = st;
     return st;
 }
